@@ -78,6 +78,10 @@ pub enum Op {
     RemoveFabricC(u8, u8),
     /// write a group key set on fabric n
     GroupKeyC(u8),
+    /// the credential commands for a *new* fabric over the CASE session of fabric n (an administrator adding a second fabric)
+    CsrC(u8),
+    RootC(u8),
+    AddNocC(u8),
 }
 
 #[derive(Clone, Debug, PartialEq, Eq, Hash)]
@@ -161,6 +165,8 @@ struct World {
     violations: Vec<(String, String)>,
     case_sessions: Vec<u8>,
     memory_dirty: bool,
+    /// the fabrics whose memory image is ahead of the store (0 = unknown / node-wide)
+    dirty_fabs: std::collections::BTreeSet<u8>,
     pase_gen: u16,
     pase_dev_id: u16,
     /// C07: for every operational session the harness set up: device-side session id -> (fabric index, root, fabric id)
@@ -202,7 +208,7 @@ impl World {
             roots.push((kp, spec, cert));
         }
         let dev = commdrv::boot(&mut exec, &net, 1, &kv, 1000, true);
-        let mut w = World { exec, net, kv, dev: Some(dev), admin, admin_task: None, answer: Rc::new(RefCell::new(None)), roots, next_root: 0, last_csr_key: None, model: Model::default(), committed: Config::default(), boots: 1, violations: Vec::new(), case_sessions: Vec::new(), memory_dirty: false, pase_gen: 0, pase_dev_id: 0, incarnation: BTreeMap::new(), must_be_gone: Default::default(), completed_now: false, removed_now: None, c07: false, c11: false, c11_crash_points_checked: 0 };
+        let mut w = World { exec, net, kv, dev: Some(dev), admin, admin_task: None, answer: Rc::new(RefCell::new(None)), roots, next_root: 0, last_csr_key: None, model: Model::default(), committed: Config::default(), boots: 1, violations: Vec::new(), case_sessions: Vec::new(), memory_dirty: false, dirty_fabs: Default::default(), pase_gen: 0, pase_dev_id: 0, incarnation: BTreeMap::new(), must_be_gone: Default::default(), completed_now: false, removed_now: None, c07: false, c11: false, c11_crash_points_checked: 0 };
         w.exec.run()?;
         w.after_boot()?;
         w.committed = w.config();
@@ -408,7 +414,7 @@ impl World {
             v.extend([Op::ArmP, Op::Arm0P, Op::CsrP, Op::RootP, Op::AddNocP, Op::CompleteP]);
         }
         for f in fabs {
-            v.extend([Op::ArmC(f), Op::Arm0C(f), Op::CsrUpdC(f), Op::UpdNocC(f), Op::AclC(f), Op::LabelC(f), Op::VidStmtC(f), Op::CompleteC(f), Op::OpenWindowC(f), Op::RevokeC(f)]);
+            v.extend([Op::ArmC(f), Op::Arm0C(f), Op::CsrUpdC(f), Op::UpdNocC(f), Op::AclC(f), Op::LabelC(f), Op::VidStmtC(f), Op::CompleteC(f), Op::OpenWindowC(f), Op::RevokeC(f), Op::CsrC(f), Op::RootC(f), Op::AddNocC(f)]);
         }
         let all: Vec<u8> = memory_config(self.md()).iter().map(|f| f.idx).collect();
         for f in all.iter().filter(|f| self.case_alive(**f)) {
@@ -446,6 +452,21 @@ impl World {
                 self.must_be_gone.insert(id);
             }
             self.c07_oracle(op);
+        }
+        if self.c11 && r.is_ok() {
+            // a fabric removal that was confirmed to the administrator is committed, fail-safe or not:
+            // a restart from the store as it is now must come up without that fabric
+            if let Some(g) = self.removed_now {
+                let gone_id = pre_fabrics.iter().find(|x| x.idx == g).map(|x| (x.root, x.fabric_id));
+                match boot_config(&self.kv.map()) {
+                    Ok(c) => {
+                        if let Some(f) = c.iter().find(|f| f.idx == g && Some((f.root, f.fabric_id)) == gone_id) {
+                            self.violations.push((format!("C11:confirmed-fabric-removal-not-in-the-store:after-{}", op_class(op)), format!("{:?} was answered with success; a restart from the store as it is right afterwards comes up with fabric index {} (fabric id {:#x}) again", op, g, f.fabric_id)));
+                        }
+                    }
+                    Err(e) => self.violations.push((format!("C11:node-does-not-start-from-its-own-store:after-{}", op_class(op)), e)),
+                }
+            }
         }
         if self.c11 && r.is_ok() && !matches!(op, Op::Restart) {
             let log_after = self.kv.log_len();
@@ -486,9 +507,12 @@ impl World {
                     Op::Arm0P => (0, false, false, commdrv::arm_fail_safe(0, 0)),
                     Op::Arm0C(f) => (f, false, false, commdrv::arm_fail_safe(0, 0)),
                     Op::CsrP => (0, false, false, commdrv::csr_request(false)),
+                    Op::CsrC(f) => (f, false, false, commdrv::csr_request(false)),
+                    Op::RootC(f) => (f, false, false, commdrv::add_trusted_root(&self.roots[self.next_root % 3].2)),
                     Op::CsrUpdC(f) => (f, false, false, commdrv::csr_request(true)),
                     Op::RootP => (0, false, false, commdrv::add_trusted_root(&self.roots[self.next_root % 3].2)),
-                    Op::AddNocP => {
+                    Op::AddNocP | Op::AddNocC(_) => {
+                        let via = if let Op::AddNocC(f) = op { f } else { 0 };
                         let Some(pk) = self.last_csr_key.clone() else {
                             // no key was ever requested: a NOC for a key of the harness's own
                             let kp = certw::keypair(&c).map_err(|e| format!("{:?}", e.code()))?;
@@ -500,7 +524,7 @@ impl World {
                         let fabric_id = 0xFAB0 + (self.next_root % 3) as u64;
                         let spec = certw::noc_spec(&leaf, rspec, rkp, NODE_DEV + 50, fabric_id, &[]);
                         let noc = certw::sign(&c, &spec, &rkp.secret).map_err(|e| format!("{:?}", e.code()))?;
-                        (0, false, false, commdrv::add_noc(&noc, None, &[0xA1; 16], NODE_ADMIN))
+                        (via, false, false, commdrv::add_noc(&noc, None, &[0xA1; 16], NODE_ADMIN))
                     }
                     Op::UpdNocC(f) => {
                         let pk = self.last_csr_key.clone().unwrap_or_else(|| vec![4u8; 65]);
@@ -531,7 +555,7 @@ impl World {
                 self.judge_answer(op, via, o, &ans, failed_now);
                 // harness bookkeeping that follows the device's answers
                 match op {
-                    Op::CsrP | Op::CsrUpdC(_) if succeeded(o) => {
+                    Op::CsrP | Op::CsrC(_) | Op::CsrUpdC(_) if succeeded(o) => {
                         if let Some(Item::CmdData { value, .. }) = ans.items.first() {
                             self.last_csr_key = commdrv::csr_pubkey(value);
                             if std::env::var_os("MC_SHOW_PANICS").is_some() {
@@ -539,7 +563,7 @@ impl World {
                             }
                         }
                     }
-                    Op::AddNocP if succeeded(o) => {
+                    Op::AddNocP | Op::AddNocC(_) if succeeded(o) => {
                         if let Some(Item::CmdData { value, .. }) = ans.items.first() {
                             if let Some(idx) = field_u8(value, 1) {
                                 self.install_case(idx)?;
@@ -614,10 +638,11 @@ impl World {
                     None => self.committed.fabrics.retain(|x| x.idx != f),
                 }
                 match cfg.kv.get(&(f as u16)) {
-                    Some(v) => {
+                    // (a removed fabric has no blob, whatever the device left in the store)
+                    Some(v) if cfg.fabrics.iter().any(|x| x.idx == f) => {
                         self.committed.kv.insert(f as u16, *v);
                     }
-                    None => {
+                    _ => {
                         self.committed.kv.remove(&(f as u16));
                     }
                 }
@@ -626,12 +651,17 @@ impl World {
         if store_failed && (was_armed.is_none() || independent) {
             // a change outside a fail-safe whose store failed was refused to the administrator: the
             // memory image may keep it until the next restart, the persisted image decides
-            self.memory_dirty = true;
+            self.dirty_fabs.insert(touched.unwrap_or(0));
         }
-        if matches!(op, Op::Restart) || (independent && !store_failed) {
-            // (a fabric is persisted as a whole: a store that succeeds brings the two images together again)
-            self.memory_dirty = false;
+        if matches!(op, Op::Restart) {
+            self.dirty_fabs.clear();
+        } else if independent && !store_failed {
+            // (a fabric is persisted as a whole: a store that succeeds brings the two images of *that* fabric together again)
+            if let Some(f) = touched {
+                self.dirty_fabs.remove(&f);
+            }
         }
+        self.memory_dirty = !self.dirty_fabs.is_empty();
         if !armed_device {
             if matches!(op, Op::CompleteC(_)) && was_armed.is_some() && !store_failed {
                 // a completed commissioning commits whatever was changed under the fail-safe
@@ -662,7 +692,9 @@ impl World {
             return;
         }
         let m = self.model.clone();
-        let ctx_ok = m.armed_by == Some(via) || (via != 0 && m.armed_by == Some(0) && m.noc_fabric == Some(via));
+        // the fail-safe context belongs to whoever armed it; once a NOC was added it is associated with
+        // the new fabric (over PASE the commissioner's session stays in the context as well)
+        let ctx_ok = if m.add_noc && m.armed_by != Some(0) { m.noc_fabric == Some(via) } else { m.armed_by == Some(via) || (via != 0 && m.armed_by == Some(0) && m.noc_fabric == Some(via)) };
         let ok = succeeded(o);
         match op {
             Op::ArmP | Op::ArmC(_) => {
@@ -687,9 +719,11 @@ impl World {
                     self.model = Model { window_open: m.window_open, ..Model::default() };
                 }
             }
-            Op::CsrP | Op::CsrUpdC(_) => {
+            Op::CsrP | Op::CsrC(_) | Op::CsrUpdC(_) => {
                 let upd = matches!(op, Op::CsrUpdC(_));
-                let may = m.armed_by.is_some() && ctx_ok && !m.csr_add && !m.csr_upd && !m.add_noc && !m.upd_noc && !(upd && m.root);
+                // (a root added earlier does not forbid asking for an update CSR; it is UpdateNOC that is refused then)
+                let may = m.armed_by.is_some() && ctx_ok && !m.csr_add && !m.csr_upd && !m.add_noc && !m.upd_noc;
+                let _ = upd;
                 if ok && !may {
                     self.violations.push((format!("C08:credential-command-accepted-out-of-order:{}", op_class(op)), format!("{:?} succeeded in state {:?}", op, m)));
                 }
@@ -704,8 +738,8 @@ impl World {
                     }
                 }
             }
-            Op::RootP => {
-                let may = m.armed_by.is_some() && ctx_ok && !m.root && !m.add_noc && !m.upd_noc && !m.csr_upd;
+            Op::RootP | Op::RootC(_) => {
+                let may = m.armed_by.is_some() && ctx_ok && !m.root && !m.add_noc && !m.upd_noc;
                 if ok && !may {
                     self.violations.push(("C08:credential-command-accepted-out-of-order:root".into(), format!("{:?} succeeded in state {:?}", op, m)));
                 }
@@ -716,7 +750,7 @@ impl World {
                     self.model.root = true;
                 }
             }
-            Op::AddNocP => {
+            Op::AddNocP | Op::AddNocC(_) => {
                 let may = m.armed_by.is_some() && ctx_ok && m.root && m.csr_add && !m.add_noc && !m.upd_noc && !m.csr_upd;
                 if ok && !may {
                     self.violations.push(("C08:credential-command-accepted-out-of-order:add-noc".into(), format!("{:?} succeeded in state {:?}", op, m)));
@@ -1059,7 +1093,7 @@ pub fn parse_op(s: &str) -> Option<Op> {
                 return Some(Op::RemoveFabricC(f, g));
             }
         }
-        for o in [Op::ArmC(f), Op::Arm0C(f), Op::CsrUpdC(f), Op::UpdNocC(f), Op::AclC(f), Op::LabelC(f), Op::VidStmtC(f), Op::CompleteC(f), Op::OpenWindowC(f), Op::RevokeC(f), Op::GroupKeyC(f)] {
+        for o in [Op::ArmC(f), Op::Arm0C(f), Op::CsrUpdC(f), Op::UpdNocC(f), Op::AclC(f), Op::LabelC(f), Op::VidStmtC(f), Op::CompleteC(f), Op::OpenWindowC(f), Op::RevokeC(f), Op::GroupKeyC(f), Op::CsrC(f), Op::RootC(f), Op::AddNocC(f)] {
             if format!("{:?}", o) == s {
                 return Some(o);
             }
